@@ -4,7 +4,7 @@ from __future__ import annotations
 
 import ast
 
-from ..dataflow import MUTATORS, rd_of
+from ..dataflow import MUTATORS, rd_of, return_values, resolve_local
 from ..loader import dotted, walk_no_nested
 
 
@@ -16,9 +16,8 @@ def alias_returning_methods(cls):
             if name in out:
                 continue
             pos = set()
-            for n in walk_no_nested(f.node):
-                if isinstance(n, ast.Return) and n.value is not None:
-                    v = n.value
+            for n, v in return_values(f.node):
+                if True:
                     if isinstance(v, ast.Tuple):
                         for i, e in enumerate(v.elts):
                             k = dotted(e)
